@@ -52,7 +52,7 @@ CHECKS = {
   "K = 160 (one header path plus one counted nest) is this check's reading of 'a small constant'; the claim over all inputs is decided for the enumerated construct combinations only.",
   "exhaustive enumeration of nesting-construct combinations around the limit; process-isolated bounded-stack execution"),
  "C16": ("model_checking", "state", "5/C16",
-  "Explicit-state breadth-first search to closure for Table, InlineTable, Array, ArrayOfTables and toml::Map: a state is (real container, reference ordered map / vector), a transition is one real API call over keys {a,b,c} and a small value set (including sub-tables, inline tables, arrays of tables and placeholders left by mutable indexing), applied to both; after every transition the return value and a full observation (len, is_empty, iteration order, get / contains_* / get_key_value per key, into_iter, printed and re-parsed text, the dyn TableLike view) must agree. States are deduplicated by the Debug form of the real object plus the model; the search reports states, transitions, depth and closure. A sort family adds single transitions from wide start states: Array / Table / InlineTable with 0..40 (72) entries in every rotation with tie-producing keys (stability), and every order of 7 paths with two dotted levels x root / inline table x 4 comparators (recursion into dotted children).",
+  "Explicit-state breadth-first search to closure for Table, InlineTable, Array, ArrayOfTables and toml::Map: a state is (real container, reference ordered map / vector), a transition is one real API call over keys {a,b,c} and a small value set (including sub-tables, inline tables, arrays of tables and placeholders left by mutable indexing), applied to both; after every transition the return value and a full observation (len, is_empty, iteration order, get / contains_* / get_key_value per key, into_iter, printed and re-parsed text, the dyn TableLike view) must agree. States are deduplicated by the Debug form of the real object plus the model; the search reports states, transitions, depth and closure. Every container also gets a stateful `retain` (visiting order observed) and toml::Map double-ended iteration; `U-slots` checks that iter(), into_iter() and the printed text agree on arrays / arrays of tables whose slots were vacated or overwritten with the wrong kind of item. A sort family adds single transitions from wide start states: Array / Table / InlineTable with 0..40 (72) entries in every rotation with tie-producing keys (stability), and every non-empty subset of 7 paths with two dotted levels in every order x root / inline table x 4 comparators (recursion into dotted children).",
   "Item::None is read as 'absent'; placeholders are invisible and kept only as a flag on the key: where a formerly-placeholder key lands is not promised by the property, so the model adopts the real position provided every other visible entry kept its relative order; array lengths bounded by 3-4; toml::Map's insertion-ordered configuration is searched by the cfg engine's binary (C18).",
   "explicit-state BFS over real API call histories with canonical-state deduplication; step-wise conformance with a reference container"),
  "C07": ("model_checking", "tree", "5/C07",
@@ -60,23 +60,23 @@ CHECKS = {
   "NaNs compare equal regardless of sign (documented normalisation of the serde serializers); the family is finite and fixed, deeper nestings than it contains are outside the bound.",
   "exhaustive enumeration of a finite value family through all serializers; round-trip and validity oracles"),
  "C13": ("model_checking", "tree", "5/C13",
-  "For every serializable value of the same family and its text: nine document routes and three single-value routes (the value written as one inline table by either ValueSerializer, read by both ValueDeserializers and Value::into_deserializer) must all succeed and return the value; Value::try_from / Table::try_from must equal parsing the serialized text; for every text of the document universes (token sequences, statement sequences, decor skeletons, date-time and number edge literals, corpus mutants) seven routes into toml::Value / toml::Table must agree on success and on the tree.",
+  "For every serializable value of the same family and its text: nine document routes and three single-value routes (and, for every toml::Value tree of the value-tree enumeration, Value::try_from / Table::try_from / try_into::<Value | Table | Map<String, Value>> and 4 serializers x 4 decoders; what the text route refuses, Table::try_from must refuse too) (the value written as one inline table by either ValueSerializer, read by both ValueDeserializers and Value::into_deserializer) must all succeed and return the value; Value::try_from / Table::try_from must equal parsing the serialized text; for every text of the document universes (token sequences, statement sequences, decor skeletons, date-time and number edge literals, corpus mutants) seven routes into toml::Value / toml::Table must agree on success and on the tree.",
   "Law-based oracle (routes agree, round trip); no reference model involved.",
   "exhaustive enumeration of values and documents; all-routes-agree oracle"),
  "C17": ("model_checking", "tree", "5/C17",
-  "For every serializable value of the family: serialization is deterministic, reaches a fixed point in one step through the type and through toml::Table, Display of a parsed toml::Table is deterministic, valid, decodes equal and is a fixed point, and plain / pretty / toml_edit-pretty outputs decode equal. For every toml::Value table with 3-4 keys: every assignment of 7 entry kinds (scalar, array, array of tables, table, mixed array, empty table, empty array) x every insertion order x 2 nesting depths through three printers: valid TOML (specification model), equal decode, fixed point.",
+  "For every serializable value of the family: serialization is deterministic, reaches a fixed point in one step through the type and through toml::Table, Display of a parsed toml::Table is deterministic, valid, decodes equal and is a fixed point, and plain / pretty / toml_edit-pretty outputs decode equal. For every toml::Value table with 1 to 3-4 keys (plain keys, value-like keys such as `1` / `true`, keys that need quoting): every assignment of 8 entry kinds (scalar, date-time, array, array of tables, table, mixed array, empty table, empty array) x every insertion order x 2 nesting depths through three printers: valid TOML (specification model), equal decode (also through str::parse::<Value> / ::<Table>), fixed point.",
   "The check binary is the default (sorted map) configuration; the check also builds the cfg engine's binary with preserve_order and runs the same value-tree enumeration plus the parse -> print -> parse battery there (equality by canonical form and by ==).",
   "exhaustive enumeration of value trees x insertion orders; fixed-point and validity oracles"),
  "C06": ("model_checking", "tree", "5/C06",
-  "Complete enumeration of tree shapes with <= 4 (quick) / 5 (thorough) nodes over {leaf, array, inline table, table, array of tables}, keys from 10 adversarial keys and leaves from ~240 adversarial leaves (every pair of byte-class representatives, control characters, quote runs, i64 edges, float specials, four date-time kinds) with <= 1 position deviating (thorough adds every PAIR of positions over a reduced leaf alphabet on the <= 4-node shapes) and every chain of <= 5 (7) nested containers; each tree is built through five construction routes and as toml::Table; printed text must be valid (specification model), accepted by the parser, decode to the built tree, be a fixed point and print identically twice (byte equality ACROSS construction routes is not promised by the property and only tallied).",
+  "Complete enumeration of tree shapes with <= 4 (quick) / 5 (thorough) nodes over {leaf, array, inline table, table, array of tables}, keys from 10 adversarial keys and leaves from ~240 adversarial leaves (every pair of byte-class representatives, control characters, quote runs, i64 edges, float specials, four date-time kinds) with <= 1 position deviating (thorough adds every PAIR of positions over a reduced leaf alphabet on the <= 4-node shapes), every chain of <= 5 (7) nested containers, a table -> value conversion route, and an API-state family (vacated slots, values carrying decor from a previous life, wide documents of up to 48 API-made tables after an out-of-tree-order parsed prefix); each tree is built through five construction routes and as toml::Table; printed text must be valid (specification model), accepted by the parser, decode to the built tree, be a fixed point and print identically twice (byte equality ACROSS construction routes is not promised by the property and only tallied).",
   "Key order is compared separately among value entries and among table entries (TOML syntax forces values first); NaNs by sign only. One known finding (empty array of tables prints nothing) recognised exactly.",
   "exhaustive enumeration of small value trees x construction routes; validity, decode-equality and fixed-point oracles"),
  "C08": ("model_checking", "state", "5/C08",
-  "Explicit-state search over edit histories: from 8 start documents (values, tables, interleaved arrays of tables, dotted and implicit tables, multi-line arrays with comments, sub-table before super-table, quoted keys, nested inline containers) and wide 24-44 header documents, every history of <= 3 (quick) / 4 (thorough) public edit calls (insert / entry / index-assign / remove, sort, fmt, array push / insert / replace / remove / retain / clear, array-of-tables push / extend / remove / retain / clear, table retain / clear, inline <-> standard conversions) on every path of the current document; after every step the printed text must be valid (specification model), a fixed point of the real parser, decode to the reference tree after the same edit (order among values and among array-of-tables elements), and every marked entry the edit did not touch must keep its line and the comment above it byte-for-byte. States are deduplicated by printed text + Debug of the document.",
+  "Explicit-state search over edit histories: from 13 start documents (values, tables, interleaved arrays of tables, dotted and implicit tables, multi-line arrays with comments, sub-table before super-table, quoted keys, nested inline containers, a table owning an array of tables, inline tables with dotted keys, headers out of tree order around an array of tables), three of them also with CR LF line endings, and wide 12-22 header documents, every history of <= 3 (quick) / 4 (thorough) public edit calls (insert / entry / index-assign / remove, sort, fmt, array push / insert / replace / remove / retain / clear / push and insert of a value moved out of a sibling entry, array-of-tables push / extend / remove / retain / clear, table retain / clear, inline <-> standard conversions) on every path of the current document; after every step the printed text must be valid (specification model), a fixed point of the real parser, decode to the reference tree after the same edit (order among values and among array-of-tables elements), and every marked entry the edit did not touch must keep its line and the comment above it byte-for-byte. States are deduplicated by printed text + Debug of the document.",
   "'Touched' is defined per call by the reference model; table-like siblings are compared as a set because printing follows recorded header positions; empty implicit tables / arrays of tables are invisible but kept; comments after a comma belong to the following array element, so marker comments sit before the comma.",
   "explicit-state BFS over real edit call histories; step-wise conformance with a reference tree plus verbatim-fragment oracle"),
  "C18": ("exploration", "cfg", "5/C18",
-  "The cargo feature matrix is enumerated completely (quick: 8 configurations, thorough: 20: toml_edit default / perf / serde / unbounded x parse+display / parse-only / display-only; toml default / preserve_order x parse+display / parse-only / display-only, with perf and unbounded underneath); every configuration must build; one deterministic battery (all documents of <= 4 tokens, all statement sequences <= 3, range-edge literals, decor samples, API-built documents, toml::Value trees in every insertion order, every toml::Map call history of <= 4 calls over 4 keys, equality of same-content tables, 7 nesting constructs x 11 depths up to 200) runs in each, every library call guarded so that a panic is that configuration's result; block digests of verdicts, trees, printed text and sorted observations are compared between all configurations that can compute them, a differing block is dumped to locate the item.",
+  "The cargo feature matrix is enumerated completely (quick: 10 configurations, thorough: 20: toml_edit default / perf / serde / unbounded x parse+display / parse-only / display-only; toml default / preserve_order x parse+display / parse-only / display-only, with perf and unbounded underneath); every configuration must build; one deterministic battery (all documents of <= 4 tokens, all statement sequences <= 3, range-edge literals, decor samples, API-built documents, toml::Value trees in every insertion order, every toml::Map call history of <= 4 calls over 4 keys, equality of same-content tables, 7 nesting constructs x 11 depths up to 200) runs in each, every library call guarded so that a panic is that configuration's result; block digests of verdicts, trees, printed text and sorted observations are compared between all configurations that can compute them, a differing block is dumped to locate the item.",
   "Documented exceptions: order-dependent kinds are compared only between configurations with the same map ordering; the deep-nesting kind is compared only between configurations with the same boundedness, and the unbounded ones must accept every deep document. A battery process that dies is a violation of that configuration, not a machinery error. The configuration space is enumerated completely, the battery is a bounded slice.",
   "exhaustive enumeration of the feature matrix x a fixed battery; cross-configuration digest equality"),
  "C19": ("exploration", "prog", "5/C19",
